@@ -19,7 +19,23 @@
 (*    backup wins; the pre-build content survives only if no path is backed *)
 (*    up twice in one build, which is why the builder must never move its   *)
 (*    own in-progress output aside (defect D23): RestoreGivesOldest states   *)
-(*    the condition.                                                        *)
+(*    the condition.  Under threads a second backup of a path cannot be     *)
+(*    excluded (D32, D33); since repair D33 restore_all restores the oldest *)
+(*    backup of a path only (FirstOnly), and RestoreGivesOldest holds with  *)
+(*    OncePerPath = FALSE as well (Backup_twice_first.cfg) - as long as the *)
+(*    thread that moved a file is the one that writes the new one.  When    *)
+(*    the writer is another thread (the claimer of the path, while the      *)
+(*    mover is a _make_room of a sibling) and a *second* mover exists, the  *)
+(*    two appends can come in the wrong order (Backup_twice_other.cfg       *)
+(*    violates RestoreGivesOldest: a design-level observation that needs    *)
+(*    three threads with two dependent directory-to-file swaps and was not  *)
+(*    reproduced on the code).  Appending the entry in the locked step that *)
+(*    picks the slot instead (AppendFirst) does not close it either         *)
+(*    (Backup_twice_appendfirst.cfg): the order of the appends says nothing *)
+(*    about the order of the moves unless the lock is held across the move. *)
+(*    Both configurations are negative controls of the selftest.  The       *)
+(*    positive configuration of that shape, Backup_twice_first.cfg (two     *)
+(*    threads, writer = mover, FirstOnly), is part of C02's quick check.    *)
 (***************************************************************************)
 EXTENDS Integers, Sequences, FiniteSets, TLC
 Gone == -1
@@ -29,7 +45,12 @@ CONSTANTS Threads,      \* worker threads
           MaxIdx,       \* NameInjective is checked for slot numbers 0..MaxIdx
           AtomicSlot,   \* TRUE: as built
           Paths,        \* paths that get moved aside (a thread may pick any)
-          OncePerPath   \* TRUE: the builder never moves the same path aside twice in a build (as built after D23)
+          OncePerPath,  \* TRUE: the builder never moves the same path aside twice in a build (intended since D23; under
+                        \* threads the check and the move are not atomic, so it does happen: D32, D33)
+          WriterIsMover, MaxGen,
+          AppendFirst,  \* design variant (not built): the entry is appended in the locked step that picks the slot
+                        \* (FALSE: as built - appended after the move)
+          FirstOnly     \* TRUE: restore_all restores the oldest backup of a path only (as built after D33)
 
 RECURSIVE Comps(_), FileNo(_)
 Comps(v) == IF v < 128 THEN <<>> ELSE <<v % 128>> \o Comps(v \div 128)
@@ -73,11 +94,20 @@ ReadSlot(t) ==
   /\ slot' = [slot EXCEPT ![t] = next]
   /\ next' = IF AtomicSlot THEN next + 1 ELSE next
   /\ pc' = [pc EXCEPT ![t] = "rename"]
-  /\ UNCHANGED <<todo, store, backups, disk, gen, lost>>
+  /\ backups' = IF AppendFirst THEN Append(backups, [path |-> cur'[t], name |-> Name(next)]) ELSE backups
+  /\ UNCHANGED <<todo, store, disk, gen, lost>>
 
-(* os.rename(filename, backup_filename) - outside the lock *)
+(* os.replace(filename, backup_filename) - outside the lock; when the file is gone meanwhile (another thread *)
+(* moved it) back_up_and_remove returns False and records nothing                                          *)
+RenameMissing(t) ==
+  /\ pc[t] = "rename" /\ disk[cur[t]] = Gone
+  /\ next' = IF AtomicSlot THEN next ELSE next + 1
+  /\ todo' = [todo EXCEPT ![t] = @ - 1]
+  /\ pc' = [pc EXCEPT ![t] = "idle"]
+  /\ backups' = IF AppendFirst THEN SelectSeq(backups, LAMBDA b : b.name # Name(slot[t])) ELSE backups
+  /\ UNCHANGED <<slot, cur, store, disk, gen, lost>>
 Rename(t) ==
-  /\ pc[t] = "rename"
+  /\ pc[t] = "rename" /\ disk[cur[t]] # Gone
   /\ LET n == Name(slot[t]) IN
      /\ lost' = (lost \/ n \in DOMAIN store)
      /\ store' = [m \in DOMAIN store \cup {n} |-> IF m = n THEN [path |-> cur[t], gen |-> disk[cur[t]]] ELSE store[m]]
@@ -89,24 +119,36 @@ Rename(t) ==
 (* with self._lock: _backups.append(...); afterwards the build writes a new file at that path *)
 AppendBackup(t) ==
   /\ pc[t] = "append"
-  /\ backups' = Append(backups, [path |-> cur[t], name |-> Name(slot[t])])
-  /\ gen' = gen + 1
-  /\ disk' = [disk EXCEPT ![cur[t]] = gen + 1]
+  /\ backups' = IF AppendFirst THEN backups ELSE Append(backups, [path |-> cur[t], name |-> Name(slot[t])])
+  /\ gen' = IF WriterIsMover THEN gen + 1 ELSE gen
+  /\ disk' = IF WriterIsMover THEN [disk EXCEPT ![cur[t]] = gen + 1] ELSE disk
   /\ todo' = [todo EXCEPT ![t] = @ - 1]
   /\ pc' = [pc EXCEPT ![t] = "idle"]
   /\ UNCHANGED <<next, slot, cur, store, lost>>
 
-Next == \E t \in Threads : ReadSlot(t) \/ Rename(t) \/ AppendBackup(t)
+(* WriterIsMover = TRUE: the thread that moved a file aside is the one that writes the new file (a call     *)
+(* replacing its own target).  FALSE: the new file is written by whoever claimed the path, at any time      *)
+(* after the old one is gone - the mover may be another thread (_make_room, _make_dirs).                    *)
+WriteNew(p) ==
+  /\ ~WriterIsMover /\ disk[p] = Gone /\ gen < MaxGen
+  /\ gen' = gen + 1
+  /\ disk' = [disk EXCEPT ![p] = gen + 1]
+  /\ UNCHANGED <<next, pc, slot, todo, cur, store, backups, lost>>
+Next == \/ \E t \in Threads : ReadSlot(t) \/ Rename(t) \/ RenameMissing(t) \/ AppendBackup(t)
+        \/ \E p \in Paths : WriteNew(p)
 Spec == Init /\ [][Next]_vars
 
-(* restore_all: front to back, os.replace(backup, original) *)
-RECURSIVE Restore(_, _, _)
-Restore(d, st, i) ==
+(* restore_all: front to back, os.replace(backup, original); with FirstOnly a later backup of a path that *)
+(* has been restored already is skipped (it holds contents written during the build)                     *)
+RECURSIVE RestoreF(_, _, _, _)
+RestoreF(d, st, i, done) ==
   IF i > Len(backups) THEN d
   ELSE LET b == backups[i] IN
-       IF b.name \in DOMAIN st
-       THEN Restore([d EXCEPT ![b.path] = st[b.name].gen], [m \in DOMAIN st \ {b.name} |-> st[m]], i + 1)
-       ELSE Restore(d, st, i + 1)
+       IF FirstOnly /\ b.path \in done THEN RestoreF(d, st, i + 1, done)
+       ELSE IF b.name \in DOMAIN st
+       THEN RestoreF([d EXCEPT ![b.path] = st[b.name].gen], [m \in DOMAIN st \ {b.name} |-> st[m]], i + 1, done \cup {b.path})
+       ELSE RestoreF(d, st, i + 1, done \cup {b.path})
+Restore(d, st, i) == RestoreF(d, st, i, {})
 Quiescent == \A t \in Threads : pc[t] = "idle"
 
 NoLostBackup == ~lost
